@@ -3,6 +3,7 @@
 package main
 
 import (
+	"bytes"
 	"crypto/ecdsa"
 	"crypto/ed25519"
 	"crypto/elliptic"
@@ -35,7 +36,7 @@ import (
 
 type opFn func(args []string) []string
 
-var ops = map[string]opFn{"hist": runHist}
+var ops = map[string]opFn{"hist": runHist, "salgo": runSAlgo}
 
 func main() {
 	flag.Parse()
@@ -46,9 +47,11 @@ func main() {
 	if lines := hx.ReplayLines(); lines != nil {
 		for _, l := range lines {
 			if len(l) >= 2 {
-				if _, ok := ops[l[1]]; ok {
+				if l[1] == "hist" {
 					args, res := execHist(l[2:])
 					out.Case(l[0], l[1], args, res)
+				} else if fn, ok := ops[l[1]]; ok {
+					out.Case(l[0], l[1], l[2:], fn(l[2:]))
 				}
 			}
 		}
@@ -57,6 +60,11 @@ func main() {
 	g := hx.NewGen(*hx.Seed)
 	if hx.Want("hist") {
 		genHist(g, out)
+	}
+	if hx.Want("salgo") {
+		for i, noup := range []string{"0", "1"} {
+			out.Case(fmt.Sprintf("sa%d", i), "salgo", []string{noup}, runSAlgo([]string{noup}))
+		}
 	}
 }
 
@@ -652,6 +660,8 @@ func (w *world) doOp(shim shimagent.ShimAgent, u *under, op, arg string) string 
 		return okErr(shim.Lock(hx.UnHex(arg)))
 	case "unlock":
 		return okErr(shim.Unlock(hx.UnHex(arg)))
+	case "close":
+		return okErr(shim.Close())
 	case "forward":
 		resp, err := shim.Forward(hx.UnHex(arg))
 		if err != nil {
@@ -666,4 +676,138 @@ func (w *world) doOp(shim shimagent.ShimAgent, u *under, op, arg string) string 
 		return okErr(u.ring.RemoveAll())
 	}
 	panic("op " + op)
+}
+
+// ---------------------------------------------------------------- signers used with every algorithm
+
+// salgo: every signer the shim hands out, used with every signature algorithm name, behaves like the
+// underlying agent's own signer for the same identity ("signing has the same effect as on the
+// underlying agent"): same refusal, same signature format; and whatever a signer — also one for an
+// in-memory hardware certificate — signs verifies under the signer's key.
+// args: noup 0|1      output: ok | diff:<hex of what differs>
+func runSAlgo(args []string) (res []string) {
+	defer func() {
+		if r := recover(); r != nil {
+			res = []string{"crash:" + hx.HexS(fmt.Sprint(r))}
+		}
+	}()
+	ks := getKeys()
+	ring := sshagent.NewKeyring()
+	now := uint64(time.Now().Unix())
+	mkCert := func(k *keyMat, kid string, serial uint64) *ssh.Certificate {
+		c := &ssh.Certificate{Key: k.signer.PublicKey(), Serial: serial, CertType: ssh.UserCert, KeyId: kid, ValidAfter: now - 1000, ValidBefore: now + 100000}
+		if err := c.SignCert(rand.Reader, caSign); err != nil {
+			panic(err)
+		}
+		return c
+	}
+	for _, k := range ks[:3] {
+		ring.Add(sshagent.AddedKey{PrivateKey: k.priv, Comment: k.name})
+	}
+	ring.Add(sshagent.AddedKey{PrivateKey: ks[2].priv, Certificate: mkCert(ks[2], "free text", 1), Comment: "upstream rsa cert"})
+	dir, err := os.MkdirTemp("", "salgo")
+	if err != nil {
+		panic(err)
+	}
+	defer os.RemoveAll(dir)
+	sock := dir + "/a.sock"
+	ln, err := net.Listen("unix", sock)
+	if err != nil {
+		panic(err)
+	}
+	defer ln.Close()
+	go func() {
+		for {
+			c, err := ln.Accept()
+			if err != nil {
+				return
+			}
+			go func() { sshagent.ServeAgent(ring, c); c.Close() }()
+		}
+	}()
+	shim, err := shimagent.New(shimagent.Option{Address: sock, NoUpstream: args[0] == "1"})
+	if err != nil {
+		return []string{"diff:" + hx.HexS("construction failed")}
+	}
+	defer shim.Close()
+	ysKid, _ := (&keyid.KeyID{Principals: []string{"alice"}, TransID: "t9", ReqUser: "u", ReqIP: "1.2.3.4", ReqHost: "h", Version: 1, TouchPolicy: keyid.AlwaysTouch, IsHWKey: true}).Marshal()
+	for i, k := range ks[:3] {
+		if err := shim.AddHardCert(mkCert(k, ysKid, uint64(10+i)), "yk"); err != nil {
+			return []string{"diff:" + hx.HexS("add-hardware-certificate refused for "+k.name)}
+		}
+	}
+	ss, err := shim.Signers()
+	if err != nil {
+		return []string{"diff:" + hx.HexS("signers failed")}
+	}
+	dc, err := net.Dial("unix", sock)
+	if err != nil {
+		panic(err)
+	}
+	defer dc.Close()
+	us, err := sshagent.NewClient(dc).Signers()
+	if err != nil {
+		panic(err)
+	}
+	use := func(s ssh.Signer, alg string, data []byte) string {
+		var sig *ssh.Signature
+		var err error
+		if alg == "-" {
+			sig, err = s.Sign(rand.Reader, data)
+		} else if as, ok := s.(ssh.AlgorithmSigner); ok {
+			sig, err = as.SignWithAlgorithm(rand.Reader, data, alg)
+		} else {
+			return "no-algorithm-signer"
+		}
+		if err != nil {
+			return "refused"
+		}
+		return sig.Format
+	}
+	if len(ss) < 7 {
+		return []string{"diff:" + hx.HexS(fmt.Sprintf("%d signers for 3 keys, 1 underlying certificate and 3 hardware certificates", len(ss)))}
+	}
+	for _, s := range ss {
+		// the key that signs: the signer's own blob if the underlying agent has it, else the certified key
+		blob := s.PublicKey().Marshal()
+		var u ssh.Signer
+		for _, x := range us {
+			if bytes.Equal(x.PublicKey().Marshal(), blob) {
+				u = x
+			}
+		}
+		upstream := u != nil
+		parsed, _ := ssh.ParsePublicKey(blob)
+		if c, ok := parsed.(*ssh.Certificate); ok && u == nil {
+			for _, x := range us {
+				if bytes.Equal(x.PublicKey().Marshal(), c.Key.Marshal()) {
+					u = x
+				}
+			}
+		}
+		if u == nil {
+			return []string{"diff:" + hx.HexS("a signer for a key the underlying agent does not hold: "+s.PublicKey().Type())}
+		}
+		for _, alg := range []string{"-", "", "ssh-rsa", "rsa-sha2-256", "rsa-sha2-512", "ssh-ed25519", "ecdsa-sha2-nistp256", "ssh-dss", "rsa-sha2-256-cert-v01@openssh.com"} {
+			data := []byte("signed with " + alg + " by " + s.PublicKey().Type())
+			got, want := use(s, alg, data), use(u, alg, data)
+			// an identity of the underlying agent: same effect as on the underlying agent; an in-memory
+			// hardware certificate: whatever is signed verifies under the certificate's key
+			if upstream && got != want {
+				return []string{"diff:" + hx.HexS(fmt.Sprintf("%s signer, algorithm %q: %s through the shim, %s on the underlying agent", s.PublicKey().Type(), alg, got, want))}
+			}
+			if got != "refused" && got != "no-algorithm-signer" {
+				var sig *ssh.Signature
+				if alg == "-" {
+					sig, _ = s.Sign(rand.Reader, data)
+				} else {
+					sig, _ = s.(ssh.AlgorithmSigner).SignWithAlgorithm(rand.Reader, data, alg)
+				}
+				if sig == nil || s.PublicKey().Verify(data, sig) != nil {
+					return []string{"diff:" + hx.HexS(fmt.Sprintf("%s signer, algorithm %q: the signature does not verify under the signer's key", s.PublicKey().Type(), alg))}
+				}
+			}
+		}
+	}
+	return []string{"ok"}
 }
